@@ -2,94 +2,12 @@
    the leaf transitions of the model (FinishOrder on a stored order, placement, one fill's bookkeeping,
    coins entering / leaving an escrow, the request / farming primitives ...), [I] is preserved by every
    compound handler, by the block hooks and hence by every finite history of operations.  The
-   invariants of C04 / C07 are instances (LiquidityProofs2.v, LiquidityEscrow.v, LiquidityCustody.v). *)
-From Comdex Require Import Lib.Base Lib.DecArith Model.Liquidity.
+   invariants of C04 / C07 are instances (LiquidityProofs2.v, LiquidityEscrow.v, LiquidityFarm.v,
+   LiquidityPools.v, LiquidityMM.v). *)
+From Comdex Require Import Lib.Base Lib.DecArith Model.Liquidity Proofs.LiquidityProofs.
+From Comdex Require Export Proofs.LiquidityBase.
+From Comdex Require Import Proofs.LiquidityEffects Proofs.LiquidityMMCancel.
 From Coq Require Import ZifyBool Lia.
-
-(* generic inversion of [f ... = Ok s'] into its success path *)
-Ltac inv_ok H :=
-  repeat first
-    [ discriminate H
-    | progress (match type of H with
-                | context [match ?x with _ => _ end] => let E := fresh "E" in destruct x eqn:E
-                end) ];
-  try (injection H as H).
-
-(* ---------------- keys and lookups ---------------- *)
-Lemma k3_eqb_eq a b : k3_eqb a b = true -> a = b.
-Proof. destruct a as [[a1 a2] a3], b as [[b1 b2] b3]. unfold k3_eqb. intros H. f_equal; [f_equal|]; lia. Qed.
-Lemma k3_eqb_refl a : k3_eqb a a = true.
-Proof. destruct a as [[a1 a2] a3]. unfold k3_eqb. lia. Qed.
-Lemma k3_eqb_neq a b : k3_eqb a b = false -> a <> b.
-Proof. intros H E. subst. rewrite k3_eqb_refl in H. discriminate. Qed.
-
-Lemma find_order_in k st e : find_order k st = Some e -> In e st /\ ekey e = k.
-Proof.
-  induction st as [|x r IH]; cbn [find_order]; [discriminate|]. destruct (k3_eqb (ekey x) k) eqn:E.
-  - intros H. injection H as H. subst x. split; [left; reflexivity|apply k3_eqb_eq; assumption].
-  - intros H. destruct (IH H). split; [right; assumption|assumption].
-Qed.
-Lemma find_order_self k st e : find_order k st = Some e -> find_order (ekey e) st = Some e.
-Proof. intros H. destruct (find_order_in _ _ _ H) as [_ <-]. exact H. Qed.
-
-Lemma find_order_upd k st e e' : find_order k st = Some e -> ekey e' = k ->
-  find_order k (upd_order k (fun _ => e') st) = Some e'.
-Proof.
-  intros H He'. induction st as [|x r IH]; cbn [find_order upd_order map] in *; [discriminate|].
-  destruct (k3_eqb (ekey x) k) eqn:E.
-  - rewrite He', k3_eqb_refl. reflexivity.
-  - rewrite E. apply IH. exact H.
-Qed.
-
-Lemma find_pair_in a i l p : find_pair a i l = Some p -> In p l /\ p_app p = a /\ p_id p = i.
-Proof.
-  induction l as [|x r IH]; cbn [find_pair]; [discriminate|]. destruct ((p_app x =? a) && (p_id x =? i)) eqn:E.
-  - intros H. injection H as ->. split; [left; reflexivity|lia].
-  - intros H. destruct (IH H) as (? & ? & ?). split; [right; assumption|split; assumption].
-Qed.
-Lemma find_pool_in a i l p : find_pool a i l = Some p -> In p l /\ pl_app p = a /\ pl_id p = i.
-Proof.
-  induction l as [|x r IH]; cbn [find_pool]; [discriminate|]. destruct ((pl_app x =? a) && (pl_id x =? i)) eqn:E.
-  - intros H. injection H as ->. split; [left; reflexivity|lia].
-  - intros H. destruct (IH H) as (? & ? & ?). split; [right; assumption|split; assumption].
-Qed.
-Lemma find_dep_in k l r : find_dep k l = Some r -> In r l /\ dkey r = k.
-Proof.
-  induction l as [|x t IH]; cbn [find_dep]; [discriminate|]. destruct (k3_eqb (dkey x) k) eqn:E.
-  - intros H. injection H as ->. split; [left; reflexivity|apply k3_eqb_eq; assumption].
-  - intros H. destruct (IH H). split; [right; assumption|assumption].
-Qed.
-Lemma find_wd_in k l r : find_wd k l = Some r -> In r l /\ wkey r = k.
-Proof.
-  induction l as [|x t IH]; cbn [find_wd]; [discriminate|]. destruct (k3_eqb (wkey x) k) eqn:E.
-  - intros H. injection H as ->. split; [left; reflexivity|apply k3_eqb_eq; assumption].
-  - intros H. destruct (IH H). split; [right; assumption|assumption].
-Qed.
-
-(* ---------------- ssend, folds ---------------- *)
-Lemma ssend_inv s a b d x s' : ssend s a b d x = Ok s' -> exists l, send (led s) a b d x = Ok l /\ s' = set_led s l.
-Proof. unfold ssend. intros H. destruct (send (led s) a b d x) as [l| |] eqn:E; try discriminate. injection H as <-. eauto. Qed.
-
-(* every [ssend si .. = Ok sj] hypothesis becomes [sj = set_led si l] (substituted) + the [send] fact *)
-Ltac sends :=
-  repeat match goal with
-         | E : ssend ?s _ _ _ _ = Ok ?s' |- _ =>
-           apply ssend_inv in E; let l := fresh "l" in let Hl := fresh "Hl" in destruct E as (l & Hl & ->)
-         end.
-
-Lemma fold_m_inv {A} (P : state -> Prop) (f : state -> A -> outcome state) l :
-  (forall s x s', P s -> f s x = Ok s' -> P s') -> forall s s', P s -> fold_m f l s = Ok s' -> P s'.
-Proof.
-  intros Hf. induction l as [|x r IH]; cbn [fold_m]; intros s s' HP H.
-  - injection H as <-. exact HP.
-  - unfold obind in H. destruct (f s x) eqn:E; try discriminate. eapply IH; [eapply Hf; eauto|exact H].
-Qed.
-Lemma fold_m_inv' {A} (P : state -> Prop) (f : state -> A -> outcome state) l s s' :
-  fold_m f l s = Ok s' -> P s -> (forall s x s', P s -> f s x = Ok s' -> P s') -> P s'.
-Proof. intros H HP Hf. eapply fold_m_inv; eauto. Qed.
-Lemma fold_left_inv {A} (P : state -> Prop) (f : state -> A -> state) l :
-  (forall s x, P s -> P (f s x)) -> forall s, P s -> P (fold_left f l s).
-Proof. intros Hf. induction l as [|x r IH]; intros s HP; cbn [fold_left]; [exact HP|]. apply IH, Hf, HP. Qed.
 
 (* ---------------- frame: what leaves [pairs] and [apps] alone ---------------- *)
 Definition keepp (s s' : state) : Prop := pairs s' = pairs s /\ apps s' = apps s.
@@ -154,16 +72,19 @@ Hypothesis H_place : forall s m typ pr price offer fee now s' P,
   I s -> get_params s (m_app m) = Some P -> find_pair (m_app m) (m_pair m) (pairs s) = Some pr ->
   fee = fee_amt (pr_fee_rate P) offer -> typ = 1 \/ typ = 2 ->
   place s m typ pr price offer fee now = Ok s' -> I s'.
-Hypothesis H_drop_mm : forall s app owner pair, I s -> I (drop_mm s app owner pair).
+Hypothesis H_drop_mm : forall s app owner pair,
+  I s -> (forall ix, find_mm app owner pair (mmidx s) = Some ix -> forall id, In id (mi_ids ix) -> nonlive_at (app, pair, id) s) ->
+  I (drop_mm s app owner pair).
 Hypothesis H_mm_tail : forall s m pr bt st now s' P,
   I s -> get_params s (mm_app m) = Some P -> find_pair (mm_app m) (mm_pair m) (pairs s) = Some pr ->
+  find_mm (mm_app m) (mm_owner m) (p_id pr) (mmidx s) = None ->
   existsb (fun t : Z * Z * Z => snd t <? 0) (bt ++ st) = false ->
   mm_tail s m pr bt st now = Ok s' -> I s'.
 Hypothesis H_fill_book : forall s k o g matched paid recv,
   I s -> find_order k (orders s) = Some (o, g) -> is_live (o_status o) = true ->
   0 <= o_rem o - paid -> 0 <= paid -> 0 <= recv -> I (fill_book s k o g matched paid recv).
 Hypothesis H_mark_status : forall s k o g st,
-  I s -> find_order k (orders s) = Some (o, g) -> is_term (o_status o) = false -> is_term st = false ->
+  I s -> find_order k (orders s) = Some (o, g) -> is_term (o_status o) = false -> st = 2 \/ st = 3 ->
   I (mark_status s k o g st).
 Hypothesis H_esc_in : forall s app pair from d x s',
   I s -> is_outside from = true -> esc_in s app pair from d x = Ok s' -> I s'.
@@ -238,12 +159,15 @@ Qed.
 
 Lemma sw_cancel_mm_inner s app owner pr skip s' : I s -> cancel_mm_inner s app owner pr skip = Ok s' -> I s'.
 Proof.
-  intros HI H. unfold cancel_mm_inner, obind in H. destruct (find_mm app owner (p_id pr) (mmidx s)) as [ix|].
+  intros HI H. unfold cancel_mm_inner, obind in H. destruct (find_mm app owner (p_id pr) (mmidx s)) as [ix|] eqn:Eix.
   - destruct (fold_m _ (mi_ids ix) s) as [s1| |] eqn:Ef; try discriminate. injection H as <-.
-    apply H_drop_mm. revert HI Ef. apply fold_m_inv. clear s s1. intros s id s' HI H.
-    destruct (find_order (app, p_id pr, id) (orders s)) as [e|] eqn:Ef; [|injection H as <-; exact HI].
-    inv_ok H; subst; try exact HI.
-    eapply (H_finish _ e 5 _ HI); [eapply find_order_self; exact Ef|reflexivity|eassumption].
+    destruct (cancel_fold_nonlive _ _ _ _ _ Ef) as (N1 & _ & Hmm).
+    apply H_drop_mm.
+    + revert HI Ef. apply fold_m_inv. clear s s1 Eix N1 Hmm. intros s id s' HI H.
+      destruct (find_order (app, p_id pr, id) (orders s)) as [e|] eqn:Ef; [|injection H as <-; exact HI].
+      inv_ok H; subst; try exact HI.
+      eapply (H_finish _ e 5 _ HI); [eapply find_order_self; exact Ef|reflexivity|eassumption].
+    + intros ix' Hix' id Hid. rewrite Hmm, Eix in Hix'. injection Hix' as <-. apply N1, Hid.
   - destruct skip; [injection H as <-; exact HI|discriminate].
 Qed.
 Lemma sw_cancel_mm s app owner pair s' : I s -> cancel_mm s app owner pair = Ok s' -> I s'.
@@ -268,9 +192,13 @@ Proof.
   unfold obind in H.
   destruct (cancel_mm_inner s _ _ pr true) as [s1| |] eqn:E1; try discriminate.
   destruct (cancel_mm_inner_keepp _ _ _ _ _ _ E1) as [Kp Ka].
-  eapply (H_mm_tail s1 m pr bt stt now s' P); [eapply sw_cancel_mm_inner; eauto| | |exact Eneg|exact H].
+  eapply (H_mm_tail s1 m pr bt stt now s' P); [eapply sw_cancel_mm_inner; eauto| | | |exact Eneg|exact H].
   - unfold get_params in *. rewrite Ka. exact EP.
   - rewrite Kp. exact Epr.
+  - clear H. unfold cancel_mm_inner, obind in E1.
+    destruct (find_mm (mm_app m) (mm_owner m) (p_id pr) (mmidx s)) as [ix|] eqn:Eix.
+    + destruct (fold_m _ (mi_ids ix) s) as [t| |]; try discriminate. injection E1 as <-. unfold drop_mm. cbn [mmidx set_mmidx]. apply find_mm_del.
+    + injection E1 as <-. exact Eix.
 Qed.
 
 (* ---- batch execution ---- *)
@@ -295,7 +223,7 @@ Proof.
   refine (H_esc_out s3 app pair (User (o_owner o)) (o_ddenom o) recv s' _ eq_refl H).
   destruct (o_open o1 =? 0).
   - eapply (H_finish s2 (o1, g1) 4 s3 HI2); [eapply find_order_self; exact Ef2|reflexivity|exact E3].
-  - injection E3 as <-. apply (H_mark_status s2 _ o1 g1 3 HI2 Ef2); [|reflexivity].
+  - injection E3 as <-. apply (H_mark_status s2 _ o1 g1 3 HI2 Ef2); [|right; reflexivity].
     unfold o1. cbn [set_fill o_status]. apply live_not_term, El.
 Qed.
 
@@ -335,7 +263,7 @@ Proof.
       + split; [eapply (H_finish s (o, g) 6 s' HI); [eapply find_order_self; exact Ef|reflexivity|exact H]
                |eapply finish_entry_keepp; exact H].
       + destruct (o_status o =? 1); injection H as <-; [|split; [exact HI|apply keepp_refl]].
-        split; [apply (H_mark_status s k o g 2 HI Ef); [apply live_not_term, El|reflexivity]|split; reflexivity].
+        split; [apply (H_mark_status s k o g 2 HI Ef); [apply live_not_term, El|left; reflexivity]|split; reflexivity].
     - destruct (o_status o =? 5); [injection H as <-; split; [exact HI|apply keepp_refl]|discriminate]. }
   assert (R1 : I s1 /\ keepp s s1).
   { assert (G : forall l s0 s0', I s0 /\ keepp s s0 -> fold_m (fun s k => match find_order k (orders s) with
